@@ -19,6 +19,7 @@ TNext == \/ Op("CtorPtr", CtorPtr(E.o, E.s)) \/ Op("CtorAdopt", CtorAdopt(E.o, E
          \/ Op("Resize", Resize(E.o, E.n)) \/ Op("ResizeFill", ResizeFill(E.o, E.n, E.v)) \/ Op("Write", Write(E.o, E.i, E.v))
          \/ Op("ResizeFillFrom", ResizeFillFrom(E.o, E.n, E.i))
          \/ Op("CopyConstruct", CopyConstruct(E.o)) \/ Op("CopyAssign", CopyAssign(E.o))
+         \/ Op("SelfCopyAssign", SelfCopyAssign(E.o)) \/ Op("SelfMoveAssign", SelfMoveAssign(E.o))
          \/ Op("MoveConstruct", MoveConstruct(E.o)) \/ Op("MoveAssign", MoveAssign(E.o))
          \/ Op("Swap", Swap(E.o)) \/ Op("Destroy", Destroy(E.o))
 TSpec == TInit /\ [][TNext]_<<avars, x, l>>
